@@ -10,13 +10,21 @@ RNorm(q) == LET g == GCD(q[1], q[2])
                 s == IF q[2] < 0 THEN -1 ELSE 1
             IN IF q[1] = 0 THEN <<0, 1>>
                ELSE <<s * (q[1] \div g), s * (q[2] \div g)>>
-RAdd(p, q) == RNorm(<<p[1] * q[2] + q[1] * p[2], p[2] * q[2]>>)
-RSub(p, q) == RNorm(<<p[1] * q[2] - q[1] * p[2], p[2] * q[2]>>)
-RMul(p, q) == RNorm(<<p[1] * q[1], p[2] * q[2]>>)
-RDiv(p, q) == RNorm(<<p[1] * q[2], p[2] * q[1]>>)
+\* (operands are reduced against each other first, to stay within TLC's
+\*  32-bit integers; TLC raises an error on overflow, it never wraps)
+RAdd(p, q) == LET g == GCD(p[2], q[2])
+              IN RNorm(<<p[1] * (q[2] \div g) + q[1] * (p[2] \div g),
+                         (p[2] \div g) * q[2]>>)
+RSub(p, q) == RAdd(p, <<-q[1], q[2]>>)
+RMul(p, q) == LET a == RNorm(<<p[1], q[2]>>)
+                  b == RNorm(<<q[1], p[2]>>)
+              IN RNorm(<<a[1] * b[1], a[2] * b[2]>>)
+RDiv(p, q) == RMul(p, IF q[1] < 0 THEN <<-q[2], -q[1]>> ELSE <<q[2], q[1]>>)
 RInt(n)    == <<n, 1>>
-RLess(p, q) == p[1] * q[2] < q[1] * p[2]
-RLeq(p, q)  == p[1] * q[2] <= q[1] * p[2]
+RLess(p, q) == LET g == GCD(p[2], q[2])
+               IN p[1] * (q[2] \div g) < q[1] * (p[2] \div g)
+RLeq(p, q)  == LET g == GCD(p[2], q[2])
+               IN p[1] * (q[2] \div g) <= q[1] * (p[2] \div g)
 RAbs(p)    == <<Abs(p[1]), p[2]>>
 RNeg(p)    == <<-p[1], p[2]>>
 RMax(p, q) == IF RLess(p, q) THEN q ELSE p
